@@ -212,7 +212,16 @@ pub fn run_case(ctx: &mut Ctx, c: &Case) {
             ctx.count(&format!("lib_to_model:layers{}", p.layers));
             ctx.sample(|| json!({"direction": "library -> independent decoder", "prog": p}));
             let r = guarded(|| -> Result<(usize, usize), String> {
-                let b = drv::build(p, &k, Sched::All)?;
+                // the data sources may hand over fewer bytes than asked (any `Read` may): the bytes
+                // written, and so the format, must not depend on that
+                let fp = p.fingerprint();
+                let src_sched = match fp % 4 {
+                    0 => Sched::All,
+                    1 if p.total_bytes(&k) <= 2_000_000 => Sched::Cycle(7),
+                    2 => Sched::Rand(5000, fp),
+                    _ => Sched::Max(4095),
+                };
+                let b = drv::build_with_sources(p, &k, Sched::All, src_sched)?;
                 let d = fmt::decode_archive(&k, &b.raw, &[b.sks[cc.reader.min(b.sks.len() - 1)]])?;
                 let got = d.files();
                 if got != b.expected {
@@ -227,7 +236,9 @@ pub fn run_case(ctx: &mut Ctx, c: &Case) {
                     ctx.count("held");
                 }
                 Ok(Err(e)) => {
-                    let cls: String = e.split(':').next().unwrap_or("?").chars().take(40).collect();
+                    // class of the message, without the file name it may quote
+                    let what = if e.starts_with("file \"") { e.rsplit("\": ").next().unwrap_or("?") } else { e.split(':').next().unwrap_or("?") };
+                    let cls: String = what.chars().take(48).collect();
                     ctx.violation("C06", &format!("lib-to-model:{cls}:layers{}", p.layers), scen(), json!({"message": e}));
                 }
                 Err((loc, msg)) => ctx.violation("C06", &format!("lib-to-model:panic:{loc}"), scen(), json!({"panic": msg})),
